@@ -274,6 +274,22 @@ def check_unentangled(case):
     got = _f(lambda: game.unentangled_value(), "unentangled")
     tol = 5e-4
     if abs(got - val) <= tol:
+        # "non-symmetric positive-semidefinite predicate operators" are not bounded by the identity: the same game with
+        # every operator multiplied by s has s times the value.  s puts the optimum at 2.5, so several answer-function
+        # pairs exceed 1 (seeded change C09-c2 - enumeration stopped as soon as the running maximum reached 1 - was
+        # missed while every generated predicate was <= I)
+        if val > 1e-3:
+            from toqito.nonlocal_games.extended_nonlocal_game import ExtendedNonlocalGame
+
+            fac = 2.5 / val
+            big = ExtendedNonlocalGame(np.array(prob, copy=True), np.array(pred, copy=True) * fac)
+            got_big = _f(lambda: big.unentangled_value(), "unentangled")
+            req(
+                abs(got_big - 2.5) <= 5 * tol,
+                f"unentangled_value = {got_big:.6f} for the game with every predicate operator multiplied by {fac:.4f}, whose brute-force value is "
+                f"{fac:.4f} x {val:.6f} = 2.5 (pred_mat shape {pred.shape}); the unscaled game was answered correctly",
+                "unentangled_value:not-homogeneous",
+            )
         return
     shape = pred.shape
     if got < val and abs(got - const) <= tol:
